@@ -49,9 +49,6 @@ func dijkstraFrom(u, t graph.Node, g traverse.Graph) Shortest {
 		}
 		path = newShortestFrom(u, graph.NodesOf(h.Nodes()))
 	} else {
-		if g.From(u.ID()) == graph.Empty {
-			return Shortest{from: u}
-		}
 		path = newShortestFrom(u, []graph.Node{u})
 	}
 
@@ -125,9 +122,6 @@ func DijkstraAllFrom(u graph.Node, g traverse.Graph) ShortestAlts {
 		}
 		path = newShortestAltsFrom(u, graph.NodesOf(h.Nodes()))
 	} else {
-		if g.From(u.ID()) == graph.Empty {
-			return ShortestAlts{from: u}
-		}
 		path = newShortestAltsFrom(u, []graph.Node{u})
 	}
 
